@@ -5,6 +5,7 @@ FENCE_NOTE = ("Trusts: x86-64 Linux page protection and the fault error code (wr
               "and 20-40 line C models). Accesses inside mapped memory that is no arena slot are not observed.")
 
 ENGINES = [
+    {"name": "fmtw", "path": "harness/fmtw.c", "serves_properties": ["C09"], "kind_free_text": "wide printf_s + narrow/wide scanf_s drivers with %n sentinels"},
     {"name": "fmt", "path": "harness/fmt.c", "serves_properties": ["C11", "C09", "C01", "C02", "C03", "C04", "C05", "C08"], "kind_free_text": "narrow printf_s family driver: variadic dispatcher (vcall_gen.h), format grammar, libc differential"},
     {"name": "threads", "path": "harness/threads.c", "serves_properties": ["C12"], "kind_free_text": "thread stress + footprint monitor in common.h + TSan build"},
     {"name": "handlers", "path": "harness/handlers.c", "serves_properties": ["C13"], "kind_free_text": "handler-registration history executor with sequential model"},
@@ -58,6 +59,12 @@ META = {
              text="Every comparison/search/span/length/classification export is called on all strings over a small alphabet (both operands), "
                   "with dmax/slen at, above and below the string lengths, and its answer compared with a reference computed on bounded "
                   "private copies; operands must be unchanged. Exhaustive inside the stated bounds, nothing beyond them.",
+             note=FENCE_NOTE),
+ "C09": dict(technique="runtime monitoring: poisoned sentinels behind every %n-type directive of generated formats, all 28 printf_s/scanf_s entry points called for real",
+             engine="fmtw",
+             text="Each of the 8 narrow + 8 wide printf_s and 6 narrow + 6 wide scanf_s entry points is called (variadic and va_list forms, buffers, streams, stdin/stdout) with "
+                  "formats containing an n conversion in every spelling; the argument at that position points to a poisoned sentinel. A changed sentinel, a non-failure return or "
+                  "a missing handler invocation is the refuting event. Also run under ASan.",
              note=FENCE_NOTE),
  "C11": dict(technique="runtime monitoring: differential oracle against libc printf over a generated directive grammar, real variadic calls",
              engine="fmt",
